@@ -657,13 +657,32 @@ func (g *G) genLocInval(id string) *History {
 			// it names the URI with those bytes percent-encoded and everything else as written
 			{"/wiki/Caf%C3%A9_(bar)", []string{"/wiki/Caf\xc3\xa9_(bar)", "/wiki/Caf%C3%A9_(bar)", "Caf\xc3\xa9_(bar)", "/wiki/Caf%c3%a9_(bar)"}},
 			{"/a%2Fb/x%20y", []string{"/a%2Fb/x y", "/a%2Fb/x%20y", "/a%2fb/x y", "/a/b/x y"}}, // the last names another URI
-		}[g.r.Intn(6)]
+			// … in the QUERY such bytes are query bytes like any other: the request side keeps them as written, and
+			// so does the reference (same spelling, same resource; "|" and "%7C" are different query bytes)
+			{"/list?ids=1|2", []string{"/list?ids=1|2", "list?ids=1|2", scheme + "://" + host + "/list?ids=1|2", "//" + host + "/list?ids=1|2", "/list?ids=1%7C2"}}, // the last names another URI
+			{"/s?q=caf\xc3\xa9&f={a}", []string{"/s?q=caf\xc3\xa9&f={a}", "s?q=caf\xc3\xa9&f={a}", "/x/../s?q=caf\xc3\xa9&f={a}", "/s?q=caf%C3%A9&f=%7Ba%7D"}},
+		}[g.r.Intn(8)]
 		bpath = gr.stored
 		h.Ops = append(h.Ops, get(0, "b1"))
-		target := scheme + "://" + host + pick(g, "/p", "/d/p", "/d/b", "/wiki/new")
+		target := scheme + "://" + host + pick(g, "/p", "/d/p", "/d/b", "/wiki/new", "/update")
 		h.Ops = append(h.Ops, Op{Op: "req", AtNs: 10 * sec, Method: pick(g, "POST", "PUT", "DELETE", "PATCH"), URL: target,
 			Replies: []Reply{{Status: pick(g, 200, 201, 204), BodyFail: -1, Body: "w",
 				Hdr: Hdr{{"Date", dateAt(10*sec, 0)}, {pick(g, "Location", "Content-Location"), pick(g, gr.locs...)}}}}})
+		h.Ops = append(h.Ops, get(20*sec, "b2"))
+		return h
+	}
+	if g.chance(0.08) {
+		// two DIFFERENT hosts that a Unicode case folding takes for one (final sigma, capital sharp s, the Kelvin sign,
+		// the long s): host names compare by ASCII case only (RFC 3986 §6.2.2.1; the key does), so the reply of one
+		// cannot name — and evict — the other's responses
+		pr := [][2]string{{"\u03b2\u03cc\u03bb\u03bf\u03c2.example", "\u03b2\u03cc\u03bb\u03bf\u03c3.example"}, {"stra\u00dfe.example", "stra\u1e9ee.example"},
+			{"kelvin.example", "\u212aelvin.example"}, {"s.example", "\u017f.example"}}[g.r.Intn(4)]
+		host = pr[0]
+		b = scheme + "://" + host + bpath
+		h.Ops = append(h.Ops, get(0, "b1"))
+		h.Ops = append(h.Ops, Op{Op: "req", AtNs: 10 * sec, Method: pick(g, "POST", "PUT", "DELETE"), URL: scheme + "://" + pr[1] + pick(g, "/a", "/b"),
+			Replies: []Reply{{Status: pick(g, 200, 201, 204), BodyFail: -1, Body: "w",
+				Hdr: Hdr{{"Date", dateAt(10*sec, 0)}, {pick(g, "Location", "Content-Location"), pick(g, b, "//"+host+"/b", scheme+"://"+strings.ToUpper(host)+"/b")}}}}})
 		h.Ops = append(h.Ops, get(20*sec, "b2"))
 		return h
 	}
